@@ -14,6 +14,21 @@ CHECKS = {
             "Every shape of order 0..5 with numel<=24 (quick) / 48 (thorough) and every range is enumerated; beyond that random shapes up to dims 12. Each result is checked for view-ness, ordered partition, slab validity, minimal piece count (DP) and agreement of both copies.",
             "Trusts torch storage/offset introspection and the harness's own DP; no claim beyond the enumerated/random bounds.",
             "6/C15"),
+    "C01": ("exploration",
+            "Hypothesis rule-based state machine over a live optimizer, checked after every step against an independent float64 one-step-ahead reference model computed from the optimizer's own previous state, plus bitwise held-fixed invariants and a multi-group vs independent-optimizers metamorphic differential",
+            "Generated histories (configuration x shapes x gradient/mask/schedule sequence) are run through the real optimizer; every block's factor matrices, filtered gradient, grafting accumulator, momentum and parameter delta are compared with the documented recurrences within a stated running rounding bound, inverse roots with a float64 spectral oracle on refresh steps and bitwise otherwise. Exploration, not proof: bounded orders/sizes/history lengths.",
+            "Trusts the harness's reference model (written from the docstring/README, no repository imports) and float64 torch.linalg; iterative solvers' accuracy is decided in C10, not here.",
+            "6/C01"),
+    "C03": ("exploration",
+            "Hypothesis rule-based state machine over SOAP optimizers; validity predicates on every stored eigenbasis (orthonormal, diagonalising / orthogonal-iteration update of the previous basis up to signs, refresh schedule) plus the one-step-ahead SOAP reference for corrected eigenvalues and parameter updates",
+            "Every refresh of every generated history is checked for a valid basis in all dtype pairings; all other steps must leave bases bitwise unchanged; each step's accumulator and update must match Adam in the stored rotated coordinates within the stated rounding bound.",
+            "Reference model and float64 QR/eigh trusted; the QR comparison is informative only while n*u*prod(cond) stays small (reported per run).",
+            "6/C03"),
+    "C04": ("exploration",
+            "Hypothesis rule-based state machine over gradient-presence histories with forced equal-shaped parameters; bitwise untouched-state invariant after every step, step-counter model, and per-block one-step-ahead reference to expose cross-wired buffers",
+            "Histories of presence masks (stay/flip/random/all-absent/all-present, momentum scheduled to zero and back) over parameter sets where misalignment would not raise; invariants are bitwise.",
+            "Reference model of C01; reachability walk covers dicts, sequences and module-like state objects.",
+            "6/C04"),
 }
 
 PENDING_REASON = "check not built yet at this commit (work in progress; all eighteen properties are planned to be claimed, see DESIGN.md section 0)"
